@@ -44,13 +44,18 @@ type Faults struct {
 
 var faults *Faults
 
+//go:norace
 func Install(f *Faults) { faults = f }
-func Current() *Faults   { return faults }
+
+//go:norace
+func Current() *Faults { return faults }
 
 // DefaultOptions: Badger's defaults, except that (unless VERIF_BADGER_DEFAULT=1) the memtable,
 // value-log file and block cache are sized for a database of a few hundred small records. This
 // only changes how much memory and tmpfs Badger maps at Open (30 ms -> 9 ms per world); it has
 // no bearing on what fs_db asks of Badger.
+//
+//go:norace
 func DefaultOptions(path string) Options {
 	o := badger.DefaultOptions(path)
 	if os.Getenv("VERIF_BADGER_DEFAULT") == "1" {
@@ -58,12 +63,15 @@ func DefaultOptions(path string) Options {
 	}
 	return o.WithMemTableSize(8 << 20).WithValueLogFileSize(4 << 20).WithBlockCacheSize(1 << 20).WithNumMemtables(2).WithNumCompactors(2)
 }
-func NewEntry(k, v []byte) *Entry        { return badger.NewEntry(k, v) }
+
+//go:norace
+func NewEntry(k, v []byte) *Entry { return badger.NewEntry(k, v) }
 
 type DB struct {
 	*badger.DB
 }
 
+//go:norace
 func Open(opt Options) (*DB, error) {
 	simrt.Mutation("badger.open", opt.Dir)
 	db, err := badger.Open(opt)
@@ -73,6 +81,7 @@ func Open(opt Options) (*DB, error) {
 	return &DB{db}, nil
 }
 
+//go:norace
 func (db *DB) Update(fn func(txn *Txn) error) error {
 	simrt.Mutation("badger.update", "")
 	if f := faults; f != nil {
@@ -85,6 +94,7 @@ func (db *DB) Update(fn func(txn *Txn) error) error {
 	return db.DB.Update(fn)
 }
 
+//go:norace
 func (db *DB) View(fn func(txn *Txn) error) error {
 	simrt.Yield("badger.view")
 	if f := faults; f != nil {
@@ -93,11 +103,13 @@ func (db *DB) View(fn func(txn *Txn) error) error {
 	return db.DB.View(fn)
 }
 
+//go:norace
 func (db *DB) Close() error {
 	simrt.Mutation("badger.close", "")
 	return db.DB.Close()
 }
 
+//go:norace
 func (db *DB) RunValueLogGC(r float64) error {
 	simrt.Yield("badger.vlog-gc")
 	return db.DB.RunValueLogGC(r)
